@@ -52,6 +52,24 @@ class Fold(ast.NodeTransformer):
         self.generic_visit(n)
         return n
 
+    def _nonnull(self):
+        if getattr(self, "_nn", None) is None:
+            from .inliner import _nonnull_expr
+            from .astutil import single_defs
+            a = self.f.node.args
+            params = {p.arg for p in a.posonlyargs + a.args + a.kwonlyargs}
+            binds = {}
+            for x in walk_own(self.f.node):
+                if isinstance(x, ast.Name) and isinstance(x.ctx, (ast.Store, ast.Del)):
+                    binds.setdefault(x.id, []).append(x)
+            vals = {}
+            for x in walk_own(self.f.node):
+                if isinstance(x, ast.Assign) and len(x.targets) == 1 and isinstance(x.targets[0], ast.Name):
+                    vals[x.targets[0].id] = x.value
+            # one binding in the whole function (in-place updates of the object do not make the name None)
+            self._nn = {k for k, v in vals.items() if k not in params and len(binds.get(k, [])) == 1 and _nonnull_expr(v)}
+        return self._nn
+
     def visit_BinOp(self, n):
         self.generic_visit(n)
         a, b = _const_value(n.left), _const_value(n.right)
@@ -142,6 +160,11 @@ class Fold(ast.NodeTransformer):
             return n
         a, b = _const_value(n.left), _const_value(n.comparators[0])
         op = n.ops[0]
+        # NAME is None / is not None  for a local bound once to a value that cannot be None
+        if self.repo is not None and isinstance(op, (ast.Is, ast.IsNot)) and isinstance(n.left, ast.Name) and b[0] and b[1] is None:
+            if n.left.id in self._nonnull():
+                self.changed = True
+                return ast.copy_location(ast.Constant(value=isinstance(op, ast.IsNot)), n)
         if a[0] and not b[0] and isinstance(op, (ast.In, ast.NotIn)) and self.repo is not None and isinstance(n.comparators[0], (ast.Name, ast.Attribute)):
             rows = _table(self.repo, self.f, n.comparators[0])          # membership in a module / class level constant table
             if rows is None and isinstance(n.comparators[0], ast.Name):
@@ -756,8 +779,14 @@ def inline_closures(fnode):
     closures = {}
     for n in walk_own(fnode):
         pass
+    seen_defs = {}
     for st in ast.walk(fnode):
         if isinstance(st, ast.FunctionDef) and st is not fnode:
+            seen_defs[st.name] = seen_defs.get(st.name, 0) + 1
+    for st in ast.walk(fnode):
+        if isinstance(st, ast.FunctionDef) and st is not fnode:
+            if seen_defs[st.name] != 1 or any(isinstance(x, ast.Name) and x.id == st.name and isinstance(x.ctx, (ast.Store, ast.Del)) for x in ast.walk(fnode)):
+                continue            # a name bound more than once: which body a call runs depends on where it stands
             ce = _closure_expr(st)
             if ce is not None:
                 closures[st.name] = ce
